@@ -172,6 +172,7 @@ var c05pool = map[string][]string{
 	"generic-arrows":     {"страна", "a → b", "→", "x→y", "日本　語", "ab", "", "→→ж", "'→'", "ж"},
 	"generic-quotes":     {"a «b c«", "«open", "“d“ x", "", "'e'", "««"},
 	"generic-unknownsym": {"a ? b", "?!", "?", "!?", "", "x"},
+	"generic-quotedsym":  {"a `` b", "|x|", "!!", "``|x|", "", "'q' ``"},
 	"generic-interned":   {"a\nb", "\n", " \n ", "x", "", "\n\n"},
 	"generic-2quotes":    {"a `b``c`", "`open", "'d'", "", "``", "x"},
 	"expression-custom":  {"a->b", "->", "-", "=>", "=", "--", "-=", "a - 1", "", "-1"},
